@@ -29,7 +29,7 @@ REQUIRED = {
     "ppo_env_rollouts_checked": 6, "a2c_envs_checked": 6,
     "subtrajectory_loss_perturbations": 5,
 }
-TIMEOUT = {"quick": 1200, "thorough": 3400}
+TIMEOUT = {"quick": 1200, "thorough": 7000}
 ASSUMPTIONS = ["truncation does not cut accumulation (the statement says "
                "'terminated')", "-0.0 == 0.0 counts as equal"]
 
@@ -38,7 +38,7 @@ GAMMAS = [0.0, 0.5, 0.95, 1.0]
 
 def gen_cases(tier, seed):
     rng = np.random.default_rng(seed + 707)
-    k = 1 if tier == "quick" else 10
+    k = 1 if tier == "quick" else 40
     cases = []
     for i in range(24 * k):
         cases.append(dict(kind="rtg", seed=int(rng.integers(1 << 30)), cost=0.3))
